@@ -104,13 +104,13 @@ func c05RunWrap(c *c05WrapCase) string {
 		src = side
 	case "pre":
 		if c.realPre {
-			// first segment = held ++ first chunk; the real prefetch takes min(16, len) of it
-			queue(append(append([]byte(nil), c.held...), func() []byte {
-				if len(c.chunks) > 0 {
-					return c.chunks[0].bytes()
-				}
-				return nil
-			}()...))
+			// the real prefetch takes min(16, first segment): a full-size prefix may share its segment
+			// with the first chunk, a shorter one is a segment of its own
+			first := append([]byte(nil), c.held...)
+			if len(c.held) == tcpSniffPrefetchBytes && len(c.chunks) > 0 {
+				first = append(first, c.chunks[0].bytes()...)
+			}
+			queue(first)
 		} else {
 			src = &prefixedConn{Conn: side, prefix: append(c05GenBytes(77, c.skipped), c.held...), off: c.skipped}
 		}
@@ -118,7 +118,7 @@ func c05RunWrap(c *c05WrapCase) string {
 		queue(append(c05GenBytes(77, c.skipped), c.held...))
 	}
 	rest := c.chunks
-	if c.stack == "pre" && c.realPre && len(rest) > 0 {
+	if c.stack == "pre" && c.realPre && len(c.held) == tcpSniffPrefetchBytes && len(rest) > 0 {
 		rest = rest[1:]
 	}
 	if !(c.stack == "snf" && c.poison) {
@@ -261,13 +261,6 @@ func c05GenWrapCase(r *VRand, stats *VStats) *c05WrapCase {
 			c.realPre = true
 			// held = what the real prefetch will take: min(16, first segment)
 			c.held = c05GenBytes(r.Intn(256), []int{1, 2, 5, 15, 16, 16, 16}[r.Intn(7)])
-			if len(c.held) < tcpSniffPrefetchBytes {
-				// the first segment is shorter than the prefetch size: nothing of chunk 0 may follow in it
-				c.chunks = nil
-				if r.Bool() {
-					c.held = append([]byte(nil), c.held...)
-				}
-			}
 		} else {
 			c.held = c05GenBytes(r.Intn(256), []int{0, 1, 2, 16, 40, 513, 600}[r.Intn(7)])
 			if r.Chance(0.4) {
